@@ -50,9 +50,15 @@ def main():
             demos = glob.glob(os.path.join(d, "*_test.go"))
             if not os.path.exists(patch) or not demos:
                 print(sid, "incomplete delivery"); continue
+            if os.path.exists(os.path.join(out, "meta.json")) and json.load(open(os.path.join(out, "meta.json"))).get("confirmed"):
+                print(sid, "already confirmed"); continue
+            base = PINNED
+            bf = "/tmp/mutout-%s/BASE" % prop
+            if os.path.exists(bf):
+                base = open(bf).read().strip()
             wt = "/tmp/wt-seed-%s" % sid
-            subprocess.run("git -C /repo worktree remove --force %s 2>/dev/null; git -C /repo worktree add -q --detach %s %s" % (wt, wt, PINNED), shell=True)
-            meta = {"id": sid, "property": prop, "base_commit": PINNED, "delivered_by": "blind sub-agent (saw only the property text)",
+            subprocess.run("git -C /repo worktree remove --force %s 2>/dev/null; git -C /repo worktree add -q --detach %s %s" % (wt, wt, base), shell=True)
+            meta = {"id": sid, "property": prop, "base_commit": base, "delivered_by": "blind sub-agent (saw only the property text)",
                     "confirmed_at": time.strftime("%Y-%m-%d %H:%M")}
             try:
                 pkg = pkg_of(demos[0])
